@@ -23,6 +23,13 @@ def isLock (n : Name) : Bool := startsWith lockPrefix n
     (`__init__.py`, `__init__.pyc`, `__init__.cpython-312.pyc`, …) -/
 def isInitModule (n : Name) : Bool := startsWith (initPrefix ++ ['.']) n
 
+/-- The documented rule for a file *name* taken alone: every `.py` name (in sourceless mode also every
+    `.pyc` / `.pyo` name) is the name of a revision file, except Emacs lock files `.#…` and the module
+    `__init__`.  In particular names starting with `.`, `#`, `_`, a digit, … are revision file names. -/
+def isRevName (sourceless : Bool) (n : Name) : Bool :=
+  !isLock n && !isInitModule n &&
+  (endsWith dotPy n || (sourceless && (endsWith dotPyc n || endsWith dotPyo n)))
+
 /-- Is canonical file `n` a revision file under the documented rules?
     `.py` always; `.pyc` only in sourceless mode and when there is no `.py` next to it;
     `.pyo` only in sourceless mode and when there is neither `.py` nor `.pyc` next to it. -/
